@@ -13,6 +13,8 @@ EXPLANATION = ('Every path through FileSpillWriter::write, Drop for RefCountedTe
                'who-may-write: read-modify-write operations on used_disk_space / active_files_count / current_file_disk_usage '
                'occur only in the functions of this protocol; (5) active_files_count is incremented only on paths that return the '
                'file handle. The byte-level IPC round trip of spill files is not decided.')
+# path rules cut loops after a bounded number of iterations: complete over rule instances, not over all unrollings
+EXHAUSTIVE = False
 ASSUMPTIONS = ['atomic counters are only reachable through the named fields (no raw-pointer aliasing)',
                'paths are enumerated with loops cut after 2 iterations; the analysed functions are loop-free']
 
